@@ -576,7 +576,8 @@ pub(crate) struct LocalTimeType {
 impl LocalTimeType {
     /// Construct a local time type
     pub(super) fn new(ut_offset: i32, is_dst: bool, name: Option<&[u8]>) -> Result<Self, Error> {
-        if ut_offset == i32::MIN {
+        // `Local` reports offsets as `FixedOffset`, which must stay within a day of UTC.
+        if ut_offset <= -(SECONDS_PER_DAY as i32) || ut_offset >= SECONDS_PER_DAY as i32 {
             return Err(Error::LocalTimeType("invalid UTC offset"));
         }
 
@@ -590,7 +591,8 @@ impl LocalTimeType {
 
     /// Construct a local time type with the specified UTC offset in seconds
     pub(super) const fn with_offset(ut_offset: i32) -> Result<Self, Error> {
-        if ut_offset == i32::MIN {
+        // `Local` reports offsets as `FixedOffset`, which must stay within a day of UTC.
+        if ut_offset <= -(SECONDS_PER_DAY as i32) || ut_offset >= SECONDS_PER_DAY as i32 {
             return Err(Error::LocalTimeType("invalid UTC offset"));
         }
 
